@@ -32,6 +32,9 @@ pub fn run(cfg: &Cfg) -> i32 {
     let opts = CmpOpts::default();
     let mut sampled = 0;
     for i in 0..nprog {
+        if !cfg.mine(i) {
+            continue;
+        }
         let c = match generated(cfg.seed, "C16", i, &gc) {
             GenOutcome::Ok(c) => c,
             _ => {
@@ -113,7 +116,7 @@ pub fn run(cfg: &Cfg) -> i32 {
                     let inj = match r {
                         Err(e) => {
                             let msg = e.downcast_ref::<String>().cloned().or_else(|| e.downcast_ref::<&str>().map(|s| s.to_string())).unwrap_or_default();
-                            rep.violation(&format!("host-eval/{}/panic", if is_valid { "valid" } else { "refused" }), witness("panic", json!(msg)));
+                            rep.panic_caught(&format!("host-eval/{}", if is_valid { "valid" } else { "refused" }), witness("panic", json!(msg)));
                             continue;
                         }
                         Ok(Err(e)) => {
